@@ -5,6 +5,7 @@
  *   (c) one EVLOOP_ONCE pass runs all due timers, in due order (timers due within the clock granularity of a few
  *       ms tie, and libevent's heap is not stable: BCA / ACB were observed for equal delays, so ties are unordered)
  *   (d) loopbreak wakes a blocked loop
+ *   (e) at most 256 common-timeout durations per base (NULL afterwards); a timer added with NULL never fires
  * The same scripts run against simevent inside the simulator (usim --simevent-selftest). */
 #include <event2/event.h>
 #include <event2/thread.h>
@@ -92,6 +93,31 @@ int main(void) {
 		pthread_join(th, NULL);
 		CHECK(now_ms() - t0 < 1000 && order[0] == 0, "(d) loopbreak woke the blocked loop without running the far timer");
 		event_free(e); event_base_free(b);
+	}
+	/* (e) */
+	{
+		struct event_base* b = event_base_new();
+		const struct timeval* h = NULL;
+		int n_ok = 0, i;
+		for (i = 1; i <= 256; i++) {
+			tv.tv_sec = 0; tv.tv_usec = i * 1000;
+			h = event_base_init_common_timeout(b, &tv);
+			if (h) n_ok++;
+		}
+		tv.tv_sec = 0; tv.tv_usec = 5000;
+		const struct timeval* again = event_base_init_common_timeout(b, &tv);
+		tv.tv_sec = 0; tv.tv_usec = 300000;
+		const struct timeval* over = event_base_init_common_timeout(b, &tv);
+		CHECK(n_ok == 256 && again != NULL && over == NULL, "(e) 256 distinct common timeouts per base, a known duration is found again, the 257th distinct one yields NULL");
+		order[0] = 0;
+		struct event* never = event_new(b, -1, 0, cb_order, (void*)"N");
+		struct event* soon = event_new(b, -1, 0, cb_order, (void*)"S");
+		event_add(never, over);   /* NULL timeout: a pure timer that never fires */
+		event_add(soon, again);   /* 5 ms through the common-timeout handle */
+		usleep(40000);
+		event_base_loop(b, EVLOOP_NONBLOCK);
+		CHECK(strcmp(order, "S") == 0, "(e) a timer added with a NULL timeout did not fire, the one added with a common-timeout handle did");
+		event_free(never); event_free(soon); event_base_free(b);
 	}
 	printf("%s\n", fails ? "CONFORMANCE FAILED" : "CONFORMANCE OK");
 	return fails ? 1 : 0;
